@@ -215,7 +215,7 @@ def run(ctx):
     from ipv8.messaging.payload_dataclass import DataClassPayload, type_from_format, type_map
     r = ctx.rng("main")
     ser = wire.make_serializer()
-    reg = wire.registry(ser)
+    reg = wire.registry_for_harness(ctx, ser)
     keys = [default_eccrypto.generate_key("curve25519").pub().key_to_bin() for _ in range(2)]
     gen_class = c02.make_gen_class(reg, keys)
     shipped = [c for c in tr_wire.shipped_classes() if issubclass(c, VariablePayload) and c.format_list]
